@@ -56,10 +56,14 @@ def run(rep, tier):
         rep.configs.append(cname)
         rep.units.update(units)
         for alg in ALGS:
-            for fam in ("oneshot", "incremental", "masked"):
+            for fam in ("oneshot", "incremental", "masked", "multipacket"):
                 sh = shapes(tier)
                 if fam == "masked" and tier == "quick":
                     sh = [(0, 0), (1, 9), (8, 16), (17, 33)]
+                if fam == "multipacket":
+                    # (adlen, mlen) of the first packet; the following packets are fixed (see check_shape)
+                    sh = [(0, 0), (1, 3), (8, 16), (3, 17)] if tier == "quick" else \
+                        [(a, n) for a in (0, 5, 16) for n in (0, 1, 7, 8, 9, 15, 16, 17, 33)]
                 for k in range(0, len(sh), 8):
                     items.append((js, cname, layout, maxs, alg, fam, sh[k:k + 8], tier))
     for d in modes.parallel(items, _worker):
@@ -82,7 +86,8 @@ def _worker(item):
             import traceback
             r.broken.append("C01.M %s %s %s ad=%d m=%d: %s" % (cname, alg, fam, adlen, mlen, traceback.format_exc()[-600:]))
             continue
-        fn = "%s_%s" % (ALGS[alg][0], {"oneshot": "aead_encrypt", "incremental": "aead_encrypt_block", "masked": "masked_aead_encrypt"}[fam])
+        fn = "%s_%s" % (ALGS[alg][0], {"oneshot": "aead_encrypt", "incremental": "aead_encrypt_block", "masked": "masked_aead_encrypt",
+                                "multipacket": "aead_start"}[fam])
         if bad:
             f = m.funcs.get(fn)
             r.violation("C01.M", "%s:%s" % (fn, bad[0]), f.src if f else fn,
@@ -156,5 +161,35 @@ def check_shape(m, layout, maxs, alg, fam, adlen, mlen):
             return ("output", "ciphertext||tag differs at %s (for every value of the masking randomness)" % d)
         if R.read_int(clen, 8) != mlen + 16:
             return ("clen", "reported length is %s" % R.read_int(clen, 8))
+        return None
+    if fam == "multipacket":
+        # one state object, init() once, then start / encrypt_block.. / finalize per packet: packet i must be
+        # the specification's result under nonce + i (big-endian increment, src/ascon/aead.h).  The nonce is a
+        # constant here (the increment is not GF(2)-affine in a symbolic nonce); key and data stay symbolic.
+        for nonce in (bytes(range(16)), bytes(13) + b"\x01\xff\xff", b"\xff" * 16):
+            R = modes.Run(m, layout, maxs)
+            K = R.buf("K", klen)
+            N = R.buf("Nc", 16, symbolic=False, data=nonce)
+            st = R.obj(R.struct_size(prefix + "_state_t"))
+            R.call(prefix + "_aead_init", st, N, K)
+            packets = [(adlen, mlen), (2, 5), (0, 0), (9, 21)]
+            nv = int.from_bytes(nonce, "big")
+            for k, (al, ml) in enumerate(packets):
+                A, M = R.buf("A%d" % k, al), R.buf("M%d" % k, ml)
+                c, tag = R.out(ml), R.out(16)
+                R.call(prefix + "_aead_start", st, A, al)
+                pos = 0
+                for n in ([ml] if ml < 2 else [1, ml - 1]):
+                    R.call(prefix + "_aead_encrypt_block", st, affine.Ptr(M.obj, pos), affine.Ptr(c.obj, pos), n)
+                    pos += n
+                R.call(prefix + "_aead_encrypt_finalize", st, tag)
+                nk = ((nv + k) % (1 << 128)).to_bytes(16, "big")
+                wantC, wantT = R.spec.aead_encrypt(alg, sponge.sym_bytes("K", klen), sponge.cbytes(nk),
+                                                   sponge.sym_bytes("A%d" % k, al), sponge.sym_bytes("M%d" % k, ml))
+                d = modes.first_diff(R.read(c, ml) + R.read(tag, 16), tuple(wantC) + tuple(wantT))
+                if d:
+                    return ("packet", "packet %d of a multi-packet session (packet lengths %s, initial nonce %s): "
+                            "ciphertext||tag differs from the specification under nonce+%d at %s" % (
+                                k + 1, [p[1] for p in packets], nonce.hex(), k, d))
         return None
     raise ValueError(fam)
